@@ -36,6 +36,10 @@ impl<T: TokenStream> TokenStream for PreProcessor<T> {
             self.token_stream.take_error()
         }
     }
+
+    fn skip_lines_until_directive(&mut self) {
+        self.token_stream.skip_lines_until_directive()
+    }
 }
 
 impl<T: TokenStream> PreProcessor<T> {
@@ -134,6 +138,9 @@ impl<T: TokenStream> PreProcessor<T> {
     fn eat_until_else_or_endif(&mut self) -> TokenKind {
         let mut depth = 1;
         loop {
+            // the text of a disabled region is not tokenised (an unterminated string, comment or
+            // code fragment in it must not hide the directive on a following line)
+            self.token_stream.skip_lines_until_directive();
             match self.token_stream.eat() {
                 T![#ifdef] | T![#ifndef] => {
                     depth += 1;
